@@ -15,6 +15,13 @@ def intList (j : Json) : Except String (List Int) := do
   let a ← j.getArr?
   a.toList.mapM (·.getInt?)
 
+/-- Optional repeat count of a step (`["back", 300]`): the run is observed once, at its end. -/
+def stepCount (j : Json) (at_ : Nat) : Except String Nat := do
+  let a ← j.getArr?
+  match a[at_]? with
+  | some v => v.getNat?
+  | none => pure 1
+
 def historyOp (j : Json) : Except String Res := do
   let seq ← arr j "seq"
   let mut h : History.H Int := {}
@@ -23,19 +30,25 @@ def historyOp (j : Json) : Except String Res := do
   let mut moves := 0
   for s in seq do
     let (n, arg) ← stepName s
-    let op : History.Op Int ← match n with
+    -- the operations this step stands for
+    let ops : List (History.Op Int) ← match n with
       | "add" => do
         let v ← (arg.getD Json.null).getInt?
-        pure (History.Op.add v)
-      | "back" => pure .back
-      | "forward" => pure .forward
+        pure [History.Op.add v]
+      | "adds" => do
+        let first ← (arg.getD Json.null).getInt?
+        let k ← stepCount s 2
+        pure ((List.range k).map fun (i : Nat) => History.Op.add (first + Int.ofNat i))
+      | "back" => do pure (List.replicate (← stepCount s 1) .back)
+      | "forward" => do pure (List.replicate (← stepCount s 1) .forward)
       | _ => throw "bad history step"
     match n with
-    | "add" => adds := adds + 1
+    | "add" | "adds" => adds := adds + ops.length
     | _ => moves := moves + 1
-    match History.step h op with
-    | .error _ => return { model := panicJson }
-    | .ok h' => h := h'
+    for op in ops do
+      match History.step h op with
+      | .error _ => return { model := panicJson }
+      | .ok h' => h := h'
     let cur := match History.current h with
       | .ok x => Json.num x
       | .error _ => panicJson
@@ -47,14 +60,23 @@ def optLabel (o : Option Int) : Json :=
   | some v => Json.str (toString v)
   | none => Json.null
 
+def feedRow (f : Feed.F Int) (off : Int) : Json :=
+  let g := match Feed.get f off with
+    | .ok v => optLabel v
+    | .error _ => panicJson
+  Json.arr #[Json.bool (Feed.contains f off), Json.bool (Feed.isParent f off), Json.bool (Feed.isChild f off), g]
+
 def feedObserve (f : Feed.F Int) (window : Int) : Json :=
   let offs : List Int := (List.range (2 * window.toNat + 1)).map fun (i : Nat) => (Int.ofNat i) - window
-  let rows := offs.map fun off =>
-    let g := match Feed.get f off with
-      | .ok v => optLabel v
-      | .error _ => panicJson
-    Json.arr #[Json.bool (Feed.contains f off), Json.bool (Feed.isParent f off), Json.bool (Feed.isChild f off), g]
-  Json.arr #[optLabel (Feed.current f), Json.arr rows.toArray]
+  Json.arr #[optLabel (Feed.current f), Json.arr (offs.map (feedRow f)).toArray]
+
+def rangeFrom (first : Int) (k : Nat) : List Int := (List.range k).map fun (i : Nat) => first + Int.ofNat i
+
+def iterate (k : Nat) (g : α → α) (x : α) : α := Id.run do
+  let mut y := x
+  for _ in [0:k] do
+    y := g y
+  pure y
 
 def feedOp (j : Json) : Except String Res := do
   let initv ← arr j "init"
@@ -64,6 +86,10 @@ def feedOp (j : Json) : Except String Res := do
     | "create" => do
       let v ← (initv[1]?.getD Json.null).getInt?
       pure (Feed.create v)
+    | "createn" => do
+      let first ← (initv[1]?.getD Json.null).getInt?
+      let k ← (initv[2]?.getD Json.null).getNat?
+      pure (Feed.createAndAppend (rangeFrom first k))
     | _ => do
       let l ← intList (initv[1]?.getD Json.null)
       pure (Feed.createAndAppend l)
@@ -71,14 +97,20 @@ def feedOp (j : Json) : Except String Res := do
   let mut obs : Array Json := #[feedObserve f window]
   for s in seq do
     let (n, arg) ← stepName s
-    let op : Feed.Op Int ← match n with
-      | "append" => do pure (Feed.Op.append (← intList (arg.getD Json.null)))
-      | "prepend" => do pure (Feed.Op.prepend (← intList (arg.getD Json.null)))
-      | "up" => pure .up
-      | "down" => pure .down
-      | "center" => pure .center
+    if n == "probe" then
+      let offs ← intList (arg.getD Json.null)
+      obs := obs.push (Json.arr #[optLabel (Feed.current f), Json.arr (offs.map (feedRow f)).toArray])
+      continue
+    let (op, times) : Feed.Op Int × Nat ← match n with
+      | "append" => do pure (Feed.Op.append (← intList (arg.getD Json.null)), 1)
+      | "prepend" => do pure (Feed.Op.prepend (← intList (arg.getD Json.null)), 1)
+      | "appendn" => do pure (Feed.Op.append (rangeFrom (← (arg.getD Json.null).getInt?) (← stepCount s 2)), 1)
+      | "prependn" => do pure (Feed.Op.prepend (rangeFrom (← (arg.getD Json.null).getInt?) (← stepCount s 2)), 1)
+      | "up" => do pure (.up, ← stepCount s 1)
+      | "down" => do pure (.down, ← stepCount s 1)
+      | "center" => pure (.center, 1)
       | _ => throw "bad feed step"
-    f := Feed.step f op
+    f := iterate times (fun g => Feed.step g op) f
     obs := obs.push (feedObserve f window)
   pure { model := Json.arr obs, nontrivial := seq.size ≥ 2 }
 
